@@ -22,10 +22,16 @@ Predicted ==
   IF c.kind = "mult" THEN
      LET v == CHOOSE n \in NumClasses : n.name = c.val
          m == CHOOSE x \in MultClasses : x.name = c.arg
-     IN IF MultipleOfRaises(v, m) THEN "other:OverflowError" ELSE "fine"
-  ELSE IF c.kind = "num" /\ c.atom \in {"type_number", "items_number"} THEN
+     IN IF MultipleOfRaises(v, m) THEN "other:OverflowError"
+        ELSE IF StrDigitsLimit /\ v.exp > 14284 /\ c.val \notin MultiplesOf(c.arg) /\ c.arg # "m_tiny"
+             THEN "other:ValueError"            \* the rejection message cannot be formatted
+        ELSE "fine"
+  ELSE IF c.kind = "num" THEN
      LET v == CHOOSE n \in NumClasses : n.name = c.val
-     IN IF NumberConstructRaises(v) /\ c.atom = "type_number" THEN "other:OverflowError" ELSE "fine"
+     IN IF NumberConstructRaises(v) /\ c.atom = "type_number" THEN "other:OverflowError"
+        ELSE IF MessageRaises(c.atom, v) THEN "other:ValueError"
+        ELSE "fine"
+  ELSE IF c.kind = "str" /\ FormatRaises(c.atom, c.val) THEN "other:OverflowError"
   ELSE "fine"
 Inv == PrintT(ToJson([case |-> c, predicted |-> Predicted, m10 |-> Predicted # "fine",
                       expected |-> ExpectedAccept(c)]))
